@@ -37,7 +37,7 @@ RULE = ('(a) Matrix.solve, numpy and scipy backends: ALL 1x1 and 2x2 matrices ov
         'and non-zero reduced right-hand side (a), distinct supported request with >=1 free dof (b), distinct validated step sequence (c), distinct request with >=1 free dof (d)')
 ASSUMPTIONS = ['dense numpy arithmetic (matmul, norm, cond, inv) is the reference; residuals of the nonlinear family are re-evaluated by hand-written numpy formulas',
                'a requested tolerance t is accepted as met when the recomputed residual <= t*(1+1e-9) + 1e-12*(|A||x|+|b|)',
-               'with atol=rtol=0 a residual <= 1e-8*(|A||x|+|b|) is demanded only when the reduced matrix has condition number < 1e6',
+               'with atol=rtol=0 a residual <= 1e-7*(|A|(|x|+|x0|)+|b|) is demanded only when the reduced matrix has condition number < 1e6',
                'backends: numpy always, scipy when importable from /verif/.deps (MKL not installed)',
                'matrices / answers whose residual norm (a sum of squares) is not representable (|A||x|+|b| >= 1e150) are only checked for finiteness and constraints',
                'a request that runs longer than 60 s is counted as a timeout, not judged (hangs are not this property)',
